@@ -320,6 +320,46 @@ func runGuardedRules(p *Program, id string) ([]*Gen, []string) {
 							}
 						}
 					}
+					if kv["forbid-go"] != "" && holds {
+						// `forbid-go=1`: the site runs on the goroutine of the function under contract - neither its closure nor an
+						// enclosing closure is started with `go` (the function has done this work when it returns)
+						for fn := in.Parent(); fn != nil && fn.Parent() != nil; fn = fn.Parent() {
+							for _, pb := range fn.Parent().Blocks {
+								for _, pi := range pb.Instrs {
+									if g, ok := pi.(*ssa.Go); ok {
+										if mc, ok := g.Call.Value.(*ssa.MakeClosure); ok && mc.Fn == ssa.Value(fn) {
+											holds, missing = false, "execution on the caller's goroutine: the closure containing the site is started with `go`, so the function returns before this has happened"
+										}
+									}
+								}
+							}
+						}
+					}
+					if kv["exhaustive-loop"] != "" && holds {
+						// `exhaustive-loop=1`: the innermost loop around the site is left only when its header says it is
+						// exhausted - no break, return or goto out of its body (every item gets the treatment at the site)
+						if why := loopHasEarlyExit(in); why != "" {
+							holds, missing = false, why
+						}
+					}
+					if nb := kv["no-call-since-guards"]; nb != "" && holds {
+						// `no-call-since-guards=NAME`: check-then-act is atomic - between the evaluation of each required guard
+						// and the site there is no call of NAME (e.g. Unlock: the guard was read under the lock the site still holds)
+						for _, gd := range guards {
+							for _, fct := range domFacts(in) {
+								if fct.cond == nil || !factMatches(fct, gd) {
+									continue
+								}
+								ci, ok := fct.cond.(ssa.Instruction)
+								if !ok {
+									continue
+								}
+								if where := callBetween(ci, in, nb); where != "" {
+									holds, missing = false, "no call of "+nb+" between the test "+gd+" and the site (there is one at "+where+": the tested state may have changed)"
+								}
+							}
+						}
+					}
 					if pc := kv["preceded-by-call"]; pc != "" && holds {
 						// `preceded-by-call=F`: a call of F comes before the site, in its block or in a block that dominates it
 						found := false
@@ -631,6 +671,140 @@ func runDecidesRules(p *Program, id string) ([]*Gen, []string) {
 		gens = append(gens, g)
 	}
 	return gens, errs
+}
+
+// loopHasEarlyExit: the innermost natural loop containing the instruction has an edge that leaves it from a block
+// other than its header. Returns "" if the loop is left only at the header (or a reason).
+func loopHasEarlyExit(in ssa.Instruction) string {
+	b := in.Block()
+	for h := b; h != nil; h = h.Idom() {
+		// is h a loop header whose natural loop contains b?
+		body := map[*ssa.BasicBlock]bool{h: true}
+		var work []*ssa.BasicBlock
+		for _, pr := range h.Preds {
+			if h.Dominates(pr) && !body[pr] {
+				body[pr] = true
+				work = append(work, pr)
+			}
+		}
+		if len(work) == 0 && !(len(h.Preds) > 0 && func() bool {
+			for _, pr := range h.Preds {
+				if pr == h {
+					return true
+				}
+			}
+			return false
+		}()) {
+			continue
+		}
+		for len(work) > 0 {
+			x := work[len(work)-1]
+			work = work[:len(work)-1]
+			for _, pr := range x.Preds {
+				if !body[pr] {
+					body[pr] = true
+					work = append(work, pr)
+				}
+			}
+		}
+		if !body[b] || b == h && len(h.Preds) == 0 {
+			continue
+		}
+		for x := range body {
+			if x == h {
+				continue
+			}
+			for _, s := range x.Succs {
+				if !body[s] {
+					return fmt.Sprintf("a loop that is left only when it is exhausted: block %d leaves the loop around the site early (break / return)", x.Index)
+				}
+			}
+		}
+		return ""
+	}
+	return "a loop around the site"
+}
+
+// callBetween: is there a call (not a deferred one) of a function or method named name on some path from instruction
+// a to instruction b (a's block dominates b's)? Returns a description of the first one found.
+func callBetween(a, b ssa.Instruction, name string) string {
+	isCall := func(x ssa.Instruction) bool {
+		c, ok := x.(*ssa.Call)
+		if !ok {
+			return false
+		}
+		if c.Call.IsInvoke() {
+			return c.Call.Method.Name() == name
+		}
+		callee := c.Call.StaticCallee()
+		return callee != nil && callee.Name() == name
+	}
+	ab, bb := a.Block(), b.Block()
+	if ab == bb {
+		on := false
+		for _, x := range ab.Instrs {
+			if x == b {
+				break
+			}
+			if on && isCall(x) {
+				return "block " + fmt.Sprint(ab.Index)
+			}
+			if x == a {
+				on = true
+			}
+		}
+		return ""
+	}
+	on := false
+	for _, x := range ab.Instrs {
+		if on && isCall(x) {
+			return "block " + fmt.Sprint(ab.Index)
+		}
+		if x == a {
+			on = true
+		}
+	}
+	for _, x := range bb.Instrs {
+		if x == b {
+			break
+		}
+		if isCall(x) {
+			return "block " + fmt.Sprint(bb.Index)
+		}
+	}
+	// blocks strictly between: reachable from a's block and able to reach b's block
+	fwd := map[*ssa.BasicBlock]bool{}
+	var f func(x *ssa.BasicBlock)
+	f = func(x *ssa.BasicBlock) {
+		for _, s := range x.Succs {
+			if !fwd[s] && s != bb {
+				fwd[s] = true
+				f(s)
+			}
+		}
+	}
+	f(ab)
+	bwd := map[*ssa.BasicBlock]bool{}
+	var g func(x *ssa.BasicBlock)
+	g = func(x *ssa.BasicBlock) {
+		for _, pr := range x.Preds {
+			if !bwd[pr] && pr != ab {
+				bwd[pr] = true
+				g(pr)
+			}
+		}
+	}
+	g(bb)
+	for _, x := range ab.Parent().Blocks {
+		if fwd[x] && bwd[x] && x != ab && x != bb {
+			for _, in := range x.Instrs {
+				if isCall(in) {
+					return "block " + fmt.Sprint(x.Index)
+				}
+			}
+		}
+	}
+	return ""
 }
 
 // controlConds returns the conditions of the branches that decide whether the instruction is reached: exactly one
